@@ -1,5 +1,6 @@
 // Driver for C33: runs the proposal discovery of pkg/tbtcpg (FindDeposits, FindDepositsToSweep,
-// RedemptionTask.FindPendingRedemptions, ProposalGenerator.Generate) against fake chains built
+// RedemptionTask.FindPendingRedemptions, DepositSweepTask.Run / RedemptionTask.Run whose proposals
+// are observed, ProposalGenerator.Generate) against fake chains built
 // from generated event histories and prints the cases for the Coq model (Model/C33.v).
 // Wallets, transactions and scripts are small integers in the generated input; the fakes map
 // them injectively to 20-byte hashes / 32-byte hashes / P2PKH scripts and back.
@@ -112,6 +113,7 @@ type depIn struct {
 	SkipSwept  bool    `json:"skipSwept"`
 	SkipUnconf bool    `json:"skipUnconf"`
 	ToSweep    bool    `json:"toSweep"`
+	ViaRun     bool    `json:"viaRun"` // with ToSweep: DepositSweepTask.Run, the proposal's deposits are observed
 }
 
 type rEv struct {
@@ -143,6 +145,7 @@ type redIn struct {
 	Delays    []rDelay `json:"delays"`
 	Wallet    int      `json:"wallet"`
 	Limit     uint16   `json:"limit"`
+	ViaRun    bool     `json:"viaRun"` // RedemptionTask.Run, the proposal's scripts are observed
 }
 
 type gTask struct {
@@ -238,6 +241,21 @@ func (f *fakeChain) GetDepositRequest(h bitcoin.Hash, idx uint32) (*tbtc.Deposit
 	return nil, false, nil
 }
 
+func (f *fakeChain) GetDepositSweepMaxSize() (uint16, error) { return uint16(f.dep.Max), nil }
+func (f *fakeChain) GetDepositParameters() (uint64, uint64, uint64, uint32, error) {
+	return 1000, 2000, 1 << 40, 100, nil
+}
+func (f *fakeChain) ValidateDepositSweepProposal([20]byte, *tbtc.DepositSweepProposal, []struct {
+	*tbtc.Deposit
+	FundingTx *bitcoin.Transaction
+}) error {
+	return nil
+}
+func (f *fakeChain) GetRedemptionMaxSize() (uint16, error) { return f.red.Limit, nil }
+func (f *fakeChain) ValidateRedemptionProposal([20]byte, *tbtc.RedemptionProposal) error {
+	return nil
+}
+
 type fakeCounter struct {
 	chain.BlockCounter
 	cur uint64
@@ -331,6 +349,12 @@ type fakeBtc struct {
 	dep *depIn
 }
 
+func (f *fakeBtc) EstimateSatPerVByteFee(uint32) (int64, error) { return 1, nil }
+func (f *fakeBtc) GetTransaction(h bitcoin.Hash) (*bitcoin.Transaction, error) {
+	return &bitcoin.Transaction{Version: 1, Outputs: []*bitcoin.TransactionOutput{
+		{Value: 1, PublicKeyScript: scriptOf(1)}, {Value: 1, PublicKeyScript: scriptOf(1)}, {Value: 1, PublicKeyScript: scriptOf(1)}}}, nil
+}
+
 func (f *fakeBtc) GetTransactionConfirmations(h bitcoin.Hash) (uint, error) {
 	for _, c := range f.dep.Confs {
 		if txHash(c.Tx) == h {
@@ -385,7 +409,21 @@ func runDeposits(in *depIn, em *lib.Emitter, id string) {
 		var human []map[string]interface{}
 		if in.ToSweep {
 			var refs []*tbtcpg.DepositReference
-			refs, err = tbtcpg.NewDepositSweepTask(fc, fb).FindDepositsToSweep(nullLogger, walletPKH(in.Wallet), uint16(in.Max))
+			if in.ViaRun {
+				var p tbtc.CoordinationProposal
+				var ok bool
+				p, ok, err = tbtcpg.NewDepositSweepTask(fc, fb).Run(&tbtc.CoordinationProposalRequest{
+					WalletPublicKeyHash: walletPKH(in.Wallet), ActionsChecklist: []tbtc.WalletActionType{tbtc.ActionDepositSweep}})
+				if err == nil && ok {
+					dsp := p.(*tbtc.DepositSweepProposal)
+					for i, k := range dsp.DepositsKeys {
+						refs = append(refs, &tbtcpg.DepositReference{FundingTxHash: k.FundingTxHash,
+							FundingOutputIndex: k.FundingOutputIndex, RevealBlock: dsp.DepositsRevealBlocks[i].Uint64()})
+					}
+				}
+			} else {
+				refs, err = tbtcpg.NewDepositSweepTask(fc, fb).FindDepositsToSweep(nullLogger, walletPKH(in.Wallet), uint16(in.Max))
+			}
 			for _, d := range refs {
 				deps = append(deps, fmt.Sprintf("{| d_tx := %s; d_idx := %s; d_block := %s; d_wallet := 0; d_swept := false; d_amount := 0%%Z; d_conf := 0%%Z |}",
 					lib.N(txID(d.FundingTxHash)), lib.N(uint64(d.FundingOutputIndex)), lib.ZU(d.RevealBlock)))
@@ -475,6 +513,9 @@ func runDeposits(in *depIn, em *lib.Emitter, id string) {
 	if in.ToSweep {
 		fn = "toSweep"
 	}
+	if in.ViaRun {
+		fn = "sweepRun"
+	}
 	em.Tally(fn + "-" + kind)
 	if kind == "DepOk" {
 		em.Tally(fmt.Sprintf("%s-found-%02d", fn, len(deps)))
@@ -502,7 +543,19 @@ func runRedemptions(in *redIn, em *lib.Emitter, id string) {
 				kind, obs = "RedPanic", fmt.Sprintf("panic: %v", r)
 			}
 		}()
-		res, err := tbtcpg.NewRedemptionTask(fc, nil).FindPendingRedemptions(nullLogger, walletPKH(in.Wallet), in.Limit)
+		var res []bitcoin.Script
+		var err error
+		if in.ViaRun {
+			var p tbtc.CoordinationProposal
+			var ok bool
+			p, ok, err = tbtcpg.NewRedemptionTask(fc, &fakeBtc{}).Run(&tbtc.CoordinationProposalRequest{
+				WalletPublicKeyHash: walletPKH(in.Wallet), ActionsChecklist: []tbtc.WalletActionType{tbtc.ActionRedemption}})
+			if err == nil && ok {
+				res = p.(*tbtc.RedemptionProposal).RedeemersOutputScripts
+			}
+		} else {
+			res, err = tbtcpg.NewRedemptionTask(fc, nil).FindPendingRedemptions(nullLogger, walletPKH(in.Wallet), in.Limit)
+		}
 		if err == nil {
 			for _, s := range res {
 				scripts = append(scripts, scriptID(s))
@@ -590,6 +643,9 @@ func runRedemptions(in *redIn, em *lib.Emitter, id string) {
 		ages[p.Age]++
 		tie = tie || ages[p.Age] >= 2
 	}
+	if in.ViaRun {
+		em.Tally("redemptionRun-" + kind)
+	}
 	em.Tally("redemptions-" + kind)
 	if kind == "RedOk" {
 		em.Tally(fmt.Sprintf("redemptions-found-%02d", len(scripts)))
@@ -600,7 +656,7 @@ func runRedemptions(in *redIn, em *lib.Emitter, id string) {
 	key, _ := json.Marshal(in)
 	em.Case(lib.Case{ID: id, Coq: coq, Key: "red" + string(key),
 		Nontrivial: dup && kind == "RedOk" && len(scripts) >= 2,
-		Sig:        map[string]interface{}{"fn": "redemptions", "out": kind, "dupKeys": dup, "ageTies": tie},
+		Sig:        map[string]interface{}{"fn": "redemptions", "viaRun": in.ViaRun, "out": kind, "dupKeys": dup, "ageTies": tie},
 		In:         input{Fn: "redemptions", Red: in}, Out: obs})
 }
 
@@ -743,6 +799,12 @@ func genDeposits(r *lib.Rng, malformed bool) *depIn {
 	switch r.Intn(6) {
 	case 0:
 		in.ToSweep = true
+		if r.Bool() {
+			in.ViaRun = true
+			if in.Max <= 0 {
+				in.Max = r.Range(1, 20)
+			}
+		}
 	case 1:
 		in.SkipSwept = false
 	case 2:
@@ -836,6 +898,9 @@ func genRedemptions(r *lib.Rng, malformed bool) *redIn {
 		in.Limit = uint16(r.Range(1, 3))
 	default:
 		in.Limit = uint16(r.Range(1, 10))
+	}
+	if r.Chance(1, 5) {
+		in.ViaRun = true
 	}
 	lookback := uint64(timeout)/uint64(abt) + 1000
 	var start uint64
